@@ -64,6 +64,14 @@ pub(crate) fn bbox_write_z_range_to<PointType: HasZ, W: Write>(
     Ok(())
 }
 
+/// Counts found in the input may not be backed by data: at most this many elements
+/// are reserved up front, vectors then grow with the elements that are really read.
+const MAX_PREALLOCATED_ELEMENTS: usize = 1024;
+
+pub(crate) fn capacity_for(count: usize) -> usize {
+    count.min(MAX_PREALLOCATED_ELEMENTS)
+}
+
 /// Whether the size (in bytes) announced by the record header is the size
 /// computed from the counts found in the record. Compared without truncation.
 pub(crate) fn record_size_is(record_size: i32, expected_size: usize) -> bool {
@@ -78,7 +86,7 @@ where
     PointType: HasMutXY + Default,
     T: Read,
 {
-    let mut points = Vec::<PointType>::with_capacity(num_points as usize);
+    let mut points = Vec::<PointType>::with_capacity(capacity_for(num_points as usize));
     for _ in 0..num_points {
         let mut p = PointType::default();
         *p.x_mut() = source.read_f64::<LittleEndian>()?;
@@ -112,7 +120,7 @@ pub(crate) fn read_parts<T: Read>(
     source: &mut T,
     num_parts: i32,
 ) -> Result<Vec<i32>, std::io::Error> {
-    let mut parts = Vec::<i32>::with_capacity(num_parts as usize);
+    let mut parts = Vec::<i32>::with_capacity(capacity_for(num_parts as usize));
     for _ in 0..num_parts {
         parts.push(source.read_i32::<LittleEndian>()?);
     }
@@ -213,7 +221,7 @@ impl<'a, PointType: Default + HasMutXY, R: Read> MultiPartShapeReader<'a, PointT
             ));
         }
         let parts_array = read_parts(source, num_parts)?;
-        let parts = Vec::<Vec<PointType>>::with_capacity(num_parts as usize);
+        let parts = Vec::<Vec<PointType>>::with_capacity(capacity_for(num_parts as usize));
         Ok(Self {
             num_points,
             num_parts,
